@@ -62,7 +62,13 @@ impl CompRes {
 #[derive(Clone, Debug)]
 pub struct Target { pub root: SubProblem<St>, pub ct: CompilationType, pub width: usize, pub lb: isize }
 impl Target {
-    fn json(&self) -> Value { json!({"root": {"state": format!("{:?}", self.root.state), "depth": self.root.depth, "value": self.root.value, "path": fmt_sol(&self.root.path)}, "type": format!("{:?}", self.ct), "width": self.width, "best_lb": self.lb}) }
+    fn json(&self) -> Value { json!({"root": {"state": format!("{:?}", self.root.state), "state_d": self.root.state.d, "state_x": self.root.state.x, "depth": self.root.depth, "value": self.root.value, "path": fmt_sol(&self.root.path)}, "type": format!("{:?}", self.ct), "width": self.width, "best_lb": self.lb}) }
+    pub fn from_json(v: &Value) -> Target {
+        let r = &v["root"];
+        let path = r["path"].as_array().unwrap().iter().map(|p| Decision { variable: Variable(p[0].as_u64().unwrap() as usize), value: p[1].as_i64().unwrap() as isize }).collect();
+        Target { root: SubProblem { state: Arc::new(St { d: r["state_d"].as_u64().unwrap() as u8, x: r["state_x"].as_u64().unwrap() as u32 }), value: r["value"].as_i64().unwrap() as isize, path, ub: isize::MAX, depth: r["depth"].as_u64().unwrap() as usize },
+                 ct: match v["type"].as_str().unwrap() { "Exact" => CompilationType::Exact, "Restricted" => CompilationType::Restricted, _ => CompilationType::Relaxed }, width: v["width"].as_u64().unwrap() as usize, lb: v["best_lb"].as_i64().unwrap() as isize }
+    }
 }
 
 pub fn viz_config(bits: usize) -> VizConfig {
@@ -475,4 +481,28 @@ pub fn check(prop: &str, tier: &str) -> i32 {
         "oracle: exact value-to-go by backward DP / subset enumeration; completions enumerated exhaustively (<= 243 per root)".to_string(),
         "history independence is compared on order-insensitive public results and only under total state rankings (hash-map iteration order after clear() may legitimately change tie-breaks)".to_string(),
     ])
+}
+
+/// re-executes one recorded compilation (replay files of this engine): fresh object
+pub fn replay(v: &Value) -> i32 {
+    let (fam, idx, var) = from_id(&v["instance"]);
+    let m = fam.build(idx, var);
+    let t = Target::from_json(&v["target"]);
+    let kind = v["diagram"].as_str().unwrap_or("Lel");
+    fn go<D: DdX>(m: &dyn Model, t: &Target) -> (CompRes, Vec<Finding>) {
+        let mut dd = D::default();
+        let viz: Vec<usize> = (0..64).collect();
+        let res = compile_one(&mut dd, m, t, true, &viz);
+        let mut fs = judge(m, D::KIND, t, &res);
+        let mut agg = Agg::default();
+        fs.extend(dot::judge_viz(m, D::KIND, t, &res, &mut agg));
+        (res, fs)
+    }
+    let (res, fs) = match kind { "Lel" => go::<DefaultMDDLEL<St>>(m.as_ref(), &t), "Fc" => go::<DefaultMDDFC<St>>(m.as_ref(), &t), _ => go::<Pooled<St>>(m.as_ref(), &t) };
+    println!("model: {}", m.describe());
+    println!("target: {}", t.json());
+    println!("result: {}", res.json());
+    if let Some((_, Ok(txt))) = res.viz.iter().find(|(b, _)| *b == 31) { println!("--- as_graphviz (all fields, show_deleted) ---\n{}", txt); }
+    for x in fs.iter() { println!("VIOLATION-REPLAYED property={} sig={} : {}", x.prop, x.sig, x.what); }
+    if fs.is_empty() { println!("no violation on a fresh object (the recorded one may need the history dimension: re-run the check)"); 0 } else { 1 }
 }
